@@ -7,7 +7,7 @@ from ..core import unhx
 THEOREMS = ['events_errors', 'error_line_exact', 'errors_in_file_order', 'message_quotes_line', 'book_fails_first', 'walk_fails_first', 'csv_database_fails_first', 'lint_lists_all']
 LEVEL = 'proof'
 RULE = ('k in 0..4 malformed lines (no blank before the value / value not a number) planted inside records of generated well-formed files '
-        '(blank lines, comments, notes, CRLF, one comment or note line of 4 to 60 KB) x every file-reading command x lint with and without --silent; '
+        '(blank lines, comments, notes, CRLF, one comment or note line of 4 to 60 KB, a CRLF pair across the 4096-byte refill of the line reader) x every file-reading command x lint with and without --silent; '
         'non-trivial = k >= 1 and the first planted line is not line 2; distinct by file hash')
 ASSUMPTIONS = ["lint's exit status on a file with errors is not asserted (the statement gives lint its own clause)"]
 
@@ -15,6 +15,12 @@ DB_CMDS = [(['reg'], ()), (['bal'], ()), (['report', 'totals'], ()), (['report',
            (['csv', 'database'], ()), (['csv', 'database-resolved'], ()), (['summary'], ('2021/01/24',)), (['stats'], ())]
 LOG_CMDS = [(['reg'], ()), (['bal'], ()), (['report', 'totals'], ()), (['report', 'unresolved'], ()), (['report', 'quantity'], ()),
             (['csv', 'log'], ()), (['print'], ()), (['summary'], ('2021/01/24',)), (['stats'], ())]
+
+
+# the same commands with switches that route the data through another reporter: the first malformed line is reported all the same
+VARIANTS = [(['reg'], (), {'singleElement': 'calories'}), (['reg'], (), {'singleElement': 'calories', 'groupFood': True}), (['reg'], (), {'singleFood': 'a'}), (['reg'], (), {'oldReg': True}),
+            (['reg'], (), {'template': 'left-aligned'}), (['reg'], (), {'totalsOnly': True}), (['bal'], (), {'collapse': True}), (['bal'], (), {'collapseLast': True}),
+            (['bal'], (), {'singleElement': 'calories'}), (['report', 'totals'], (), {}), (['report', 'unresolved'], (), {})]
 
 
 def planted(g):
@@ -71,6 +77,21 @@ def build_file(g, records, k, crlf):
             line, kind, text = planted(g)
             lines.insert(pos, line)
             plants.append((pos, line, kind, text))
+    if crlf and r.random() < 0.35:
+        # a CRLF pair across the line reader's first refill: the carriage return is byte 4095, the line feed byte 4096
+        # (one line end, not two); filler comments bring the file past that point, one pad comment sets the alignment
+        fill = []
+        while sum(len(l) + 2 for l in fill + lines) < 4500:
+            fill.append(b'# filler %d' % len(fill))
+        lines[0:0] = fill
+        off, ends = 0, []
+        for l in lines:
+            ends.append(off + len(l))           # offset of this line's carriage return
+            off += len(l) + 2
+        cand = [e for e in ends if e <= 4000]
+        if cand:
+            x = 4093 - cand[-1]                 # a pad line of x bytes shifts everything by x + 2
+            lines.insert(0, b'# ' + b'p' * (x - 2))
     # recompute physical positions after all insertions
     msgs = []
     planted_lines = {id(p[1]): p for p in plants}
@@ -101,8 +122,8 @@ def gen(g, count):
         files = {b'food.yaml': dbdata, b'log.yaml': logdata}
         msgs = dbmsgs if which == 'db' else logmsgs
         meta = {'which': which, 'k': len(msgs), 'msgs': msgs}
-        for path, args in (DB_CMDS if which == 'db' else LOG_CMDS):
-            c = app(path, files, args=args, kind=' '.join(path), disk=(path == ['stats']))
+        for path, args, sw in [(p_, a_, {}) for p_, a_ in (DB_CMDS if which == 'db' else LOG_CMDS)] + r.sample(VARIANTS, 4):
+            c = app(path, files, args=args, s=sw, kind=' '.join(path) + (' [' + '+'.join(sw) + ']' if sw else ''), disk=(path == ['stats']))
             c.meta.update(meta)
             cases.append(c)
         target = b'food.yaml' if which == 'db' else b'log.yaml'
